@@ -35,6 +35,10 @@ RULE = ("all ordered pairs of the boundary corpus (ints 0, +-1, 2, -7, 2^63-1, 2
         "them), and chains of unary operators (- -, -+, +-, ---, not -, - not, ...) over a variable and over a literal; "
         "string/sequence repetition additionally on engines WITH yaql.memoryQuota in {200, 1000, 5000, 20000} and "
         "yaql.limitIterators, counts swept around the true threshold getsizeof(result) = quota from both sides; "
+        "the whole operator x kind grid (error rows and well-typed rows) again with operands that are expensive or "
+        "impossible to render or compare: integers of 5028 and 102351 decimal digits (built as values, never printed: "
+        "written to Coq by their formula, observed by sign/bit length/residues), and in the oracle also a 200000-character "
+        "string, a 3000-deep nested list and a host object whose __repr__/__str__ raise; "
         "non-trivial = a payload ran or an operand is null/boolean; distinct = distinct "
         "(configuration, route, operators, operands)")
 TRUSTED = ["Model/Scalars.v payload semantics are a hand transcription of math.py/strings.py/common.py/boolean.py and the "
@@ -921,6 +925,8 @@ def oracle_cfg(run, deep, cfg):
                 report_law(run, n, (a, b), r, cfg)
 
     for c in load_corpus():
+        if cfg == "CQuota" and c.get("hard"):
+            continue            # operands that are themselves larger than the quota
         if len(c["vals"]) == 2 and not any(isinstance(v, float) and v != v for v in c["vals"]):
             pair(*c["vals"])
             pair(*reversed(c["vals"]))
